@@ -416,10 +416,9 @@ impl<'a> Tx<'a> {
         let mut evidence = vec![];
         let zone = self.zone.clone();
         'outer: for p in &zone {
-            // the engine decodes EVERY proof it walks over as a fungible proof (unwrap): a
-            // non-fungible proof met before the walk ends traps the native call
+            // proofs of the other kind in the zone are not evidence: skipped
             if !matches!(p.total, PAmt::F(_)) {
-                return Err("trap");
+                continue;
             }
             for (c, _) in &p.evidence {
                 if remaining == 0 {
@@ -466,7 +465,7 @@ impl<'a> Tx<'a> {
         let zone = self.zone.clone();
         'outer: for p in &zone {
             if !matches!(p.total, PAmt::N(_)) {
-                return Err("trap");
+                continue;
             }
             for (c, _) in &p.evidence {
                 if remaining.is_empty() {
@@ -1067,9 +1066,9 @@ pub fn acceptable_errors(why: Why) -> &'static [&'static str] {
         "noproof" => &["ProofNotFound"],
         "zone_empty" => &["AuthZoneIsEmpty"],
         "locked" => &["Locked", "NodeBorrowed"],
-        "trap" => &["Trap"],
         "fee_touched" => &["LockUnmodifiedBaseOnOnUpdatedSubstate"],
-        "exists" => &["NonFungibleAlreadyExists"],
+        // an id burnt before (in this or an earlier transaction) has a locked data entry
+        "exists" => &["NonFungibleAlreadyExists", "KeyValueEntryLocked"],
         "emptyproof" => &["EmptyProofNotAllowed"],
         "insufficient_proofs" => &["InsufficientBaseProofs"],
         "leftover_worktop" => &["DropNonEmptyBucket", "Locked", "NodeBorrowed"],
